@@ -167,7 +167,9 @@ def unpivot_case(draw):
         else:
             nm = draw(st.sampled_from(cols + ['missing']))
             lit = re.escape(nm) if regex else nm
-            keys = {k: draw(st.one_of(st.sampled_from(['c', 'd', nm]), st.integers(0, 3))) for k in key_names}
+            # (with regex=False key values are literal text, whatever they contain)
+            keys = {k: draw(st.one_of(st.sampled_from(['c', 'd', nm] + ([] if regex else ['net\\total', 'a\\\\b', '\\g<0>', '\\1x', 'tab\\t'])),
+                                      st.integers(0, 3))) for k in key_names}
             if regex:
                 # constant strings go through re.sub as templates: keep them free of backslashes
                 keys = {k: (v.replace('\\', '') if isinstance(v, str) else v) for k, v in keys.items()}
